@@ -32,6 +32,7 @@ def _cells():
     out.append(('triclinic', chol_from_params(3.7, 4.1, 5.9, 81, 97, 112)))
     out.append(('rotated-triclinic', chol_from_params(3.7, 4.1, 5.9, 81, 97, 112) @ rot([1, 2, 3], 37.0).T))
     out.append(('flat', np.array([[9.0, 0, 0], [4.0, 1.2, 0], [3.0, 0.5, 1.1]])))
+    out.append(('metre-scale-triclinic', 1e-10 * chol_from_params(3.7, 4.1, 5.9, 81, 97, 112)))     # lengths held in metres
     s = SEED % 8
     out.append(('seed-slice', chol_from_params(3.0 + 0.37 * s, 4.3 - 0.21 * s, 5.2 + 0.13 * s,
                                                70 + 3.1 * s, 95 - 2.3 * s, 105 + 1.7 * s)))
@@ -40,6 +41,11 @@ def _cells():
 
 CELLS = _cells()
 ORIGINS = [np.zeros(3), np.array([1.3, -2.7, 0.45])]
+
+
+def origin_for(v, oi):
+    """the origin menu scaled with the cell (a metre-scale cell gets a metre-scale origin)"""
+    return ORIGINS[oi] * (np.abs(v).max() / 5.0 if np.abs(v).max() < 1e-3 else 1.0)
 PBCS = list(itertools.product([False, True], repeat=3))
 G5 = [0.0, 0.25, 0.5, 0.5 + 2.0 ** -34, 0.75, 1 - 2.0 ** -20]   # 0.5+2^-34: a near tie between two images (lengths differ by ~1e-10 L)
 P1REL = np.array(list(itertools.product(G5, repeat=3)))
@@ -57,7 +63,7 @@ IMAGES = np.array(list(itertools.product([-1, 0, 1], repeat=3)))
 
 def setup(case):
     name, v = CELLS[case['cell']]
-    o = ORIGINS[case['origin']]
+    o = origin_for(v, case['origin'])
     box = am.Box(vects=v, origin=o)
     pbc = PBCS[case['pbc']]
     return v, o, box, pbc
@@ -110,8 +116,10 @@ def judge(res, mag, d, v, pbc, inside_both, tag):
     # true nearest image
     ortho = np.allclose(v @ v.T, np.diag(np.diag(v @ v.T)), atol=1e-12)
     w = 1.0 / np.linalg.norm(np.linalg.inv(v).T, axis=1)
-    tn = true_nearest_len(d, v, pbc)
     wp = min([w[i] for i in range(3) if pbc[i]], default=np.inf)
+    tn = np.full(len(d), np.inf)
+    if inside_both.any():          # the lattice search is only needed (and only bounded) for pairs inside the cell
+        tn[inside_both] = true_nearest_len(d[inside_both], v, pbc)
     must = inside_both & (ortho | (tn < 0.5 * wp * (1 - 1e-9)))
     bad = must & (np.abs(np.sqrt(l2) - tn) > 1e-12 * scale)
     if bad.any():
@@ -215,7 +223,7 @@ def livebox(case):
     """ONE Box / System object whose cell is changed in place between two calls: the second result must be a periodic
     separation in the CURRENT cell (every ordered pair of menu cells x pbc x way of changing the cell)."""
     (na, va), (nb, vb) = CELLS[case['a']], CELLS[case['b']]
-    o = ORIGINS[case['origin']]
+    o = origin_for(va, case['origin'])
     pbc = PBCS[case['pbc']]
     fails = []
     rel0, REL = P0REL[2], P1REL[::3]
@@ -232,7 +240,7 @@ def livebox(case):
             fails += judge(sysm.dvect(0, slice(1, None)), sysm.dmag(0, slice(1, None)), d, vb, pbc,
                            np.full(len(d), how == 'box_set-scale'), 'live-' + how)
             s2 = am.System(atoms=am.Atoms(pos=pos + 0.21 * vb[1]), box=sysm.box, pbc=pbc)
-            fails += judge(am.displacement(sysm, s2), None, np.tile(0.21 * vb[1], (len(pos), 1)), vb, pbc, np.zeros(len(pos), bool), 'live-disp-' + how)
+            fails += judge(am.displacement(sysm, s2), None, np.array(s2.atoms.pos) - np.array(sysm.atoms.pos), vb, pbc, np.zeros(len(pos), bool), 'live-disp-' + how)
         else:
             fails += judge(am.dvect(p0, P1, box, pbc), am.dmag(p0, P1, box, pbc), P1 - p0, va, pbc, np.ones(len(P1), bool), 'live-first')
             if how == 'vects=':
